@@ -55,22 +55,28 @@ def Done (E : Env) (u : Step) (st : St) : Prop :=
 
 /-- the stored state marks the step as up to date with respect to the current state of its inputs
 (the conditions under which the cook functions skip) -/
-def Settled (t : Step) (st : St) : Prop :=
+def Settled (E : Env) (t : Step) (st : St) : Prop :=
   match t.info.sig.kind with
   | .build => st.dirStates t.info.path = some (.build (ivid st t.info t.deps) (t.info.execPath :: t.deps.map fun d => d.info.execPath)) ∧
       st.inputs t.info.path = some (inputHashes st t.info t.deps)
   | .package => st.dirStates t.info.path = some (.pkg (.mk t.info.sig (vids t.deps))) ∧
       st.inputs t.info.path = some (inputHashes st t.info (t.pre ++ t.deps))
   | .checkout => (∃ bo, st.dirStates t.info.path = some (.co t.info.scms (some (.mk t.info.sig (vids t.deps))) bo)) ∧
-      st.inputs t.info.path = some (resultsOf st t.deps)
+      st.inputs t.info.path = some (resultsOf st t.deps) ∧
+      st.results t.info.path = some (hashOf E st t.info.path) ∧
+      -- an indeterministic checkout is re-run by every invocation: everything it stores is current
+      (t.info.det = false →
+        st.dirStates t.info.path = some (.co t.info.scms (some (.mk t.info.sig (vids t.deps)))
+          (some { loc := t.info.boLoc, upd := t.info.boUpd, ins := resultsOf st t.deps })) ∧
+        st.variantIds t.info.path = some (ivid st t.info t.deps))
 
 /-- `Settled` only looks at the step's own path and the paths of its inputs -/
 theorem settled_frame {p : Path} {st st' : St} (ha : AgreeOff p st st') (t : Step) (hp : t.path ≠ p)
-    (hin : ∀ d ∈ t.pre ++ t.deps, d.path ≠ p) (h : Settled t st) : Settled t st' := by
+    (hin : ∀ d ∈ t.pre ++ t.deps, d.path ≠ p) (h : Settled E t st) : Settled E t st' := by
   cases t with
   | mk i pre ds =>
     have hp' : i.path ≠ p := hp
-    obtain ⟨_, e2, e3, _, _⟩ := ha i.path hp'
+    obtain ⟨e1, e2, e3, e4, e5⟩ := ha i.path hp'
     have hds : ∀ d ∈ ds, d.path ≠ p := fun d hd => hin d (by simp [Step.pre, Step.deps, hd])
     have hall : ∀ d ∈ pre ++ ds, d.path ≠ p := fun d hd => hin d (by simpa [Step.pre, Step.deps] using hd)
     cases hk : i.sig.kind with
@@ -84,7 +90,8 @@ theorem settled_frame {p : Path} {st st' : St} (ha : AgreeOff p st st') (t : Ste
       exact h
     | checkout =>
       simp only [Settled, Step.info, Step.pre, Step.deps, hk] at h ⊢
-      rw [e2, e3, resultsOf_agree ha ds hds]
+      rw [e1, e2, e3, e5, resultsOf_agree ha ds hds, ivid_agree ha i ds hds]
+      simp only [hashOf, e4]
       exact h
 
 theorem values_eq_map (ds : List Step) : values E ds = ds.map (value E) := by
@@ -146,7 +153,7 @@ def Ran (r : Run) (p : Path) : Prop := (r.mem.wasRun p).isSome = true
 structure DInv (E : Env) (dev : Bool) (Γ : Path → List (Dir × Digest)) (T : Step) (r : Run) : Prop where
   truthful : Truthful E dev Γ r.st
   mem : ∀ u ∈ subtrees T, ∀ x, r.mem.wasRun u.path = some x →
-    x.1 = vid u ∧ r.mem.wasSkipped u.path = false ∧ Done E u r.st ∧ Settled u r.st
+    x.1 = vid u ∧ r.mem.wasSkipped u.path = false ∧ Done E u r.st ∧ Settled E u r.st
   /-- a step is marked only after everything below it -/
   closed : ∀ u ∈ subtrees T, Ran r u.path → ∀ v ∈ reach u, Ran r v.path
 
@@ -179,7 +186,7 @@ theorem done_of_ran {T : Step} {r : Run} (hi : DInv E dev Γ T r) {u : Step} (hu
   | some x => exact (hi.mem u hu x hx).2.2.1
 
 theorem settled_of_ran {T : Step} {r : Run} (hi : DInv E dev Γ T r) {u : Step} (hu : u ∈ subtrees T)
-    (hr : Ran r u.path) : Settled u r.st := by
+    (hr : Ran r u.path) : Settled E u r.st := by
   unfold Ran at hr
   cases hx : r.mem.wasRun u.path with
   | none => rw [hx] at hr; cases hr
@@ -242,7 +249,7 @@ theorem wp_wasAlreadyRun_inv {T : Step} (t : Step) (ht : t ∈ subtrees T) (Q : 
 /-- `_setAlreadyRun` of a step that is `Done` -/
 theorem wp_setAlreadyRun_inv {T : Step} (hwf : TreeWF Γ T) (t : Step) (ht : t ∈ subtrees T) (c : Bool)
     (Q : Unit → Run → Prop) (A : Run → Prop) (r : Run) (hi : DInv E dev Γ T r) (hd : Done E t r.st)
-    (hs : Settled t r.st)
+    (hs : Settled E t r.st)
     (hbelow : ∀ v ∈ reachL t.deps, Ran r v.path)
     (h : ∀ r', r'.st = r.st → DInv E dev Γ T r' → (∀ p, Ran r p → Ran r' p) → Ran r' t.path →
       (∀ p, p ≠ t.path → Ran r' p → Ran r p) → Q () r') :
@@ -325,7 +332,7 @@ theorem cookBuild_done {cfg : Cfg} {T : Step} (H : DHyp E dev Γ cfg T) (i : Inf
     (hdeps : ∀ d ∈ ds, Done E d r.st) (hn : r.mem.wasRun i.path = none) :
     wp (cookBuild E cfg i ds)
       (fun _ r' => DInv E dev Γ T r' ∧ r'.mem = r.mem ∧ AgreeOff i.path r.st r'.st ∧ Done E (.mk i pre ds) r'.st ∧
-        Settled (.mk i pre ds) r'.st)
+        Settled E (.mk i pre ds) r'.st)
       (fun _ => True) r := by
   have wt := stepWF_of_mem H.wf ht
   have hpre : pre = [] := by
@@ -349,7 +356,7 @@ theorem cookPackage_done {cfg : Cfg} {T : Step} (H : DHyp E dev Γ cfg T) (i : I
     (hshape' : r.st.disk i.path = none ∨ r.st.dirStates i.path = some (DirState.pkg (.mk i.sig (vids ds)))) :
     wp (cookPackage E cfg i pre ds)
       (fun _ r' => DInv E dev Γ T r' ∧ r'.mem = r.mem ∧ AgreeOff i.path r.st r'.st ∧ Done E (.mk i pre ds) r'.st ∧
-        Settled (.mk i pre ds) r'.st)
+        Settled E (.mk i pre ds) r'.st)
       (fun _ => True) r := by
   refine wp_mono _ _ _ _ _ _ ?_ (fun _ _ => trivial)
     (cookPackage_truthful H.hy.inj cfg i pre ds r hi.truthful hshape hshape')
@@ -366,7 +373,7 @@ theorem cookCheckout_done {cfg : Cfg} {T : Step} (H : DHyp E dev Γ cfg T) (i : 
     (hdeps : ∀ d ∈ ds, Done E d r.st) (hn : r.mem.wasRun i.path = none) :
     wp (cookCheckout E cfg i ds)
       (fun _ r' => DInv E dev Γ T r' ∧ r'.mem = r.mem ∧ AgreeOff i.path r.st r'.st ∧ Done E (.mk i pre ds) r'.st ∧
-        Settled (.mk i pre ds) r'.st)
+        Settled E (.mk i pre ds) r'.st)
       (fun _ => True) r := by
   have wt := stepWF_of_mem H.wf ht
   have hpre : pre = [] := by
@@ -375,11 +382,11 @@ theorem cookCheckout_done {cfg : Cfg} {T : Step} (H : DHyp E dev Γ cfg T) (i : 
   subst hpre
   refine wp_mono _ _ _ _ _ _ ?_ (fun _ _ => trivial)
     (cookCheckout_truthful H.hy.inj cfg i ds (wt.co (by simp [Step.kind, Step.info, hk])) hk (acyc_of_wf wt) r hi.truthful)
-  intro _ r' ⟨h1, h2, h3, h4, h5, h6⟩
-  have hset : Settled (.mk i [] ds) r'.st := by
+  intro _ r' ⟨h1, h2, h3, h4, h5, h6, h7⟩
+  have hset : Settled E (.mk i [] ds) r'.st := by
     simp only [Settled, Step.info, Step.pre, Step.deps, hk]
     rw [resultsOf_agree h3 ds (acyc_of_wf wt)]
-    exact ⟨h6.1, h6.2.1⟩
+    exact ⟨h6.1, h6.2.1, h6.2.2, h7⟩
   refine ⟨dinv_frame H.wf hi h2 h1 h3 hn, h2, h3, ?_, hset⟩
   have hstrip : strip (resultsOf r.st ds) = hashes E (values E ds) := by
     rw [resultsOf_done hdeps, strip_hashes]
@@ -533,7 +540,7 @@ theorem cstep_mk {cfg : Cfg} {T : Step} (H : DHyp E dev Γ cfg T) (i : Info) (pr
     -- the final marking, shared by the three kinds
     have finish : ∀ (c : Bool) (r1 r2 : Run), DPost E dev Γ T r (paths (.mk i pre ds)) (reachL ds) r1 →
         DInv E dev Γ T r2 → r2.mem = r1.mem → AgreeOff i.path r1.st r2.st → Done E (.mk i pre ds) r2.st →
-        Settled (.mk i pre ds) r2.st →
+        Settled E (.mk i pre ds) r2.st →
         wp (setAlreadyRun (.mk i pre ds) c false)
           (fun _ r' => DPost E dev Γ T r (paths (.mk i pre ds)) (reach (.mk i pre ds)) r') (fun _ => True) r2 := by
       intro c r1 r2 hp1 hi2 hm2 ha2 hd2 hs2
